@@ -97,7 +97,12 @@ func (gw *exclusiveGateway) run(ctx context.Context, sender tracing.ISenderHandl
 				if response, ok := gw.probing[m.flowId]; ok {
 					if response == nil {
 						// Reschedule, there's no next action yet
-						go func() { gw.mch <- m }()
+						go func() {
+							select {
+							case gw.mch <- m:
+							case <-ctx.Done():
+							}
+						}()
 						continue
 					}
 					delete(gw.probing, m.flowId)
@@ -153,9 +158,12 @@ func (gw *exclusiveGateway) run(ctx context.Context, sender tracing.ISenderHandl
 					m.response <- probeAction{
 						sequenceFlows: gw.nonDefaultSequenceFlows,
 						probeReport: func(indices []int) {
-							gw.mch <- gatewayProbingReport{
+							select {
+							case gw.mch <- gatewayProbingReport{
 								result: indices,
 								flowId: m.flow.Id(),
+							}:
+							case <-ctx.Done():
 							}
 						},
 					}
@@ -175,7 +183,13 @@ func (gw *exclusiveGateway) NextAction(ctx context.Context, flow Flow) chan IAct
 	})
 
 	response := make(chan IAction, 1)
-	gw.mch <- nextActionMessage{response: response, flow: flow}
+	// the node's goroutine ends with the context: nobody may be left to take the
+	// token, which then leaves on its own cancellation (a nil channel never fires)
+	select {
+	case gw.mch <- nextActionMessage{response: response, flow: flow}:
+	case <-ctx.Done():
+		return nil
+	}
 	return response
 }
 
